@@ -61,7 +61,7 @@ Theorem C01_HOk2_implies_HOk : forall w, HOk2 w -> HOk w.
 Proof. exact HOk2_HOk. Qed.
 
 (* histories of any length (failed instructions roll back): from a well-formed world, for any sequence of
-   instructions with u64 amounts (liquidator <> liquidatee) in which no bank is wiped out, the gap of every bank is at
+   instructions with u64 amounts in which no bank is wiped out, the gap of every bank is at
    least the initial gap minus the sum of the per-instruction allowances — unless a sanctioned token-less write-off hit
    that bank.  No assumption on intermediate states. *)
 Theorem C01_history :
@@ -93,7 +93,7 @@ Proof. vm_compute. reflexivity. Qed.
 Example C01_HOk2_example : HOk2 ex_world /\ hop_ok2 (HDeposit 0 0 1000 false).
 Proof.
   pose proof ONE_pos as HO.
-  split; [|split; cbn; [lia|exact I]]. unfold HOk2. split.
+  split; [|cbn; lia]. unfold HOk2. split.
   { unfold pf_ok, ex_world. cbn [hw_pf pf_rate]. split; [apply Z.div_pos; lia|]. apply Z.div_le_upper_bound; lia. }
   split.
   - unfold HLedger, bw_of, ex_world. cbn [hw_banks hw_accts hw_now hw_pf map ex_hb hb_b ha_la].
